@@ -389,13 +389,13 @@ pub fn run(ctx: &mut Ctx) {
     };
     for (fid, eos, x, full) in fluids {
         for (gname, geo) in [("slit", Geometry::Cartesian), ("cylinder", Geometry::Cylindrical), ("sphere", Geometry::Spherical)] {
-            for size in tier.pick(vec![20.0], vec![12.0, 20.0, 40.0]) {
-                for pot in tier.pick(vec!["lj93"], vec!["lj93", "steele", "hardwall", "simplelj93"]) {
+            for size in tier.pick(vec![12.0, 20.0], vec![12.0, 20.0, 40.0]) {
+                for pot in tier.pick(vec!["lj93", "hardwall"], vec!["lj93", "steele", "hardwall", "simplelj93"]) {
                     // SimpleLJ93 is documented as unimplemented for curved pores
                     if pot == "simplelj93" && gname != "slit" {
                         continue;
                     }
-                    for tr in tier.pick(vec![1.1], vec![0.7, 1.0, 1.3]) {
+                    for tr in tier.pick(vec![1.1], vec![0.7, 1.0, 1.1, 1.3]) {
                         for pfrac in tier.pick(vec![0.05], vec![0.05, 0.3]) {
                             for n in tier.pick(vec![512], vec![512, 2048]) {
                                 if !full && (pot != "lj93" || size != 20.0 || pfrac != 0.05 || n != 512) {
@@ -414,8 +414,10 @@ pub fn run(ctx: &mut Ctx) {
         }
     }
     ctx.run(&cases, |c| c.id.clone(), pore_case);
-    // adsorption-isotherm drivers on a subset of the pores (one size, LJ93, the lower pressure, 512 points)
-    let iso: Vec<PoreCase> = cases.iter().filter(|c| c.size == 20.0 && c.pot == "lj93" && c.n == 512 && c.pfrac == tier.pick(0.05, 0.3)).cloned().collect();
+    // adsorption-isotherm drivers on a subset of the pores (one size, LJ93, 512 points) at and above the critical temperature:
+    // below it the continuation of an isotherm and a stand-alone calculation may legitimately sit on different branches of the
+    // capillary-condensation hysteresis loop
+    let iso: Vec<PoreCase> = cases.iter().filter(|c| c.size == 20.0 && c.pot == "lj93" && c.n == 512 && c.pfrac == tier.pick(0.05, 0.3) && c.tr >= 1.0).cloned().collect();
     ctx.run(&iso, |c| format!("isotherm|{}", c.id), isotherm_case);
     let planar: Vec<PlanarCase> = match tier {
         Tier::Quick => vec![PlanarCase { id: "pcsaft:propane".into(), eos: propane, trs: vec![0.7, 0.85], ls: vec![100.0, 200.0], ns: vec![512, 1024] }],
@@ -425,6 +427,6 @@ pub fn run(ctx: &mut Ctx) {
             .collect(),
     };
     ctx.run(&planar, |c| format!("planar|{}", c.id), planar_case);
-    ctx.rule = "pores: functionals {PC-SAFT methane, propane, methane+ethane (2 compositions), PeTS, gc-PC-SAFT hexane} x geometries {slit, cylinder, sphere} x sizes {12,20,40 A} x solid potentials {LJ93, Steele, hard wall, SimpleLJ93 (slit)} x T_r {0.7,1,1.3} x bulk vapour pressures {0.05,0.3 of p_sat or p_c} x grids {512,2048}: the profile is re-solved at p +- h, 2h, (x +- h, 2h for mixtures) and T +- dT, 2dT and the Richardson differences are compared with the reported quantities: dOmega = -sum N_i dmu_i (Gibbs adsorption) along every direction, dN_i = sum_j dn_dmu_ij dmu_j, dn_dp, dn_dt, dn_dmu . h_partial = -T dn_dt and enthalpy = sum x_i h_i, N_i/(x_i p) -> Henry coefficient at 1e-4 p, temperature dependence of the Henry coefficient vs ideal_gas_enthalpy_of_adsorption; adsorption-isotherm drivers (20 A LJ93 pores of every fluid and geometry): adsorption and desorption isotherms on nested 3-, 5- and 9-point pressure grids: every point = stand-alone pore calculation (1e-6), same value at shared pressures of different grids (1e-6), adsorption = desorption at supercritical temperature, pressure grid echoed, N increasing and Omega decreasing; planar interfaces: surface tension for L in {60,100,200,300} A x n in {256,1024,4096} x T_r in {0.5..0.95}: independent of box and grid up to the second-order discretisation error, decreasing with T, below 20 % of its 0.95 Tc value at 0.99 Tc, pDGT within 10 %".into();
+    ctx.rule = "pores: functionals {PC-SAFT methane, propane, methane+ethane (2 compositions), PeTS, gc-PC-SAFT hexane} x geometries {slit, cylinder, sphere} x sizes {12,20,40 A} x solid potentials {LJ93, Steele, hard wall, SimpleLJ93 (slit)} x T_r {0.7,1,1.1,1.3} x bulk vapour pressures {0.05,0.3 of p_sat or p_c} x grids {512,2048}: the profile is re-solved at p +- h, 2h, (x +- h, 2h for mixtures) and T +- dT, 2dT and the Richardson differences are compared with the reported quantities: dOmega = -sum N_i dmu_i (Gibbs adsorption) along every direction, dN_i = sum_j dn_dmu_ij dmu_j, dn_dp, dn_dt, dn_dmu . h_partial = -T dn_dt and enthalpy = sum x_i h_i, N_i/(x_i p) -> Henry coefficient at 1e-4 p, temperature dependence of the Henry coefficient vs ideal_gas_enthalpy_of_adsorption; adsorption-isotherm drivers (20 A LJ93 pores of every fluid and geometry): adsorption and desorption isotherms on nested 3-, 5- and 9-point pressure grids: every point = stand-alone pore calculation (1e-6), same value at shared pressures of different grids (1e-6), adsorption = desorption at supercritical temperature, pressure grid echoed, N increasing and Omega decreasing; planar interfaces: surface tension for L in {60,100,200,300} A x n in {256,1024,4096} x T_r in {0.5..0.95}: independent of box and grid up to the second-order discretisation error, decreasing with T, below 20 % of its 0.95 Tc value at 0.99 Tc, pDGT within 10 %".into();
     ctx.assume("pore states below capillary condensation as chosen; re-solves converge to 1e-12; conditional failures of a solver are counted as skipped, not as violations");
 }
